@@ -228,6 +228,33 @@ def _order_and_errors(run: Run, model: PyModel) -> None:
                 run.check("C10.R4", "a failed step yields a non-zero exit status", isinstance(v, ast.Constant) and v.value not in (0, None), "_move_note", ret,
                           "a failed add/delete step does not produce a non-zero exit status", file=FILE_U, node=ret)
     run.floor("paths of _move_note reaching delete_note", n, 1)
+    # typestate of the moved note: on every path, what add_note receives has passed through _add_hidden_metadata
+    n_add = 0
+    for p in enum_paths(fm.node):
+        decorated: set[str] = set()
+        for ev in p.events:
+            nodes = [ev[1]] if ev[0] in ("stmt", "assume", "return") else []
+            for top in nodes:
+                if isinstance(top, (ast.Assign, ast.AnnAssign)) and isinstance(top.targets[0] if isinstance(top, ast.Assign) else top.target, ast.Name) and top.value is not None:
+                    tgt = (top.targets[0] if isinstance(top, ast.Assign) else top.target).id
+                    v = top.value
+                    if isinstance(v, ast.Call) and ast.unparse(v.func).split(".")[-1] == "_add_hidden_metadata":
+                        decorated.add(tgt)
+                    elif isinstance(v, ast.Name):
+                        (decorated.add if v.id in decorated else decorated.discard)(tgt)
+                    elif isinstance(v, ast.Call) and v.args and isinstance(v.args[0], ast.Name) and ast.unparse(v.func).split(".")[-1] in ("_to_done_note", "replace"):
+                        (decorated.add if v.args[0].id in decorated else decorated.discard)(tgt)
+                    else:
+                        decorated.discard(tgt)
+                for c in ast.walk(top):
+                    if isinstance(c, ast.Call) and isinstance(c.func, ast.Attribute) and c.func.attr == "add_note" and c.args:
+                        n_add += 1
+                        a0 = c.args[0]
+                        ok = (isinstance(a0, ast.Name) and a0.id in decorated) or (isinstance(a0, ast.Call) and ast.unparse(a0.func).split(".")[-1] == "_add_hidden_metadata")
+                        run.check("C10.R5", "the note written to the destination carries its inherited metadata on every path", ok, "_move_note", c,
+                                  "a path reaches add_note with a note that did not pass through _add_hidden_metadata: the tags, links and properties the note inherited from its old page / "
+                                  "sections are not spelled out and are lost (or replaced by those of the place it lands in)", file=FILE_U, node=c, detail=dict(path=p.describe(14)))
+    run.floor("add_note sites on paths of _move_note", n_add, 1)
     # add_note / delete_note write the page themselves on every successful path
     for q, nm in ((F_ADD, "add_note"), (F_DEL, "delete_note")):
         fi = model.func(q)
@@ -287,7 +314,13 @@ def check(run: Run) -> None:
     run.rule("C10.R2", "anchored locator: the predicate choosing the source line pins the ZID to the own-ZID position (never substring containment)")
     run.rule("C10.R3", "tables: item-prefix tuples == NoteType values + ' '; tag sigils of the hidden-metadata helpers agree with each other and with the grammar")
     run.rule("C10.R4", "order and errors: add before delete; failures give a non-zero status; both file operations write the page themselves on success; _to_done_note only changes the payload")
-    run.rule("C10.R5", "inherited metadata is spliced in directly after the note's own ZID")
+    run.rule("C10.R5", "inherited metadata is spliced in directly after the note's own ZID, and every path of _move_note passes the note through it before add_note")
+    run.rule("C10.R6", "the text that lands in the destination is Note.to_string(): the renderer obligations C12.R1-R3 (kind character, priority for every live todo kind, derivable piece sequence) are adopted")
+    from . import c12
+
+    sub = Run("C12", run.tier, run.repo)
+    c12.check(sub)
+    run.floor("adopted renderer obligations", run.adopt(sub, ("C12.R1", "C12.R2", "C12.R3"), "C10.R6"), 8)
     _conservation(run, model)
     _locator(run, model)
     _tables(run, model)
